@@ -39,6 +39,29 @@ type Case struct {
 	Quote   ref.FeeQuote `json:"quote"`
 	Batches [][]U        `json:"batches"`
 	End     string       `json:"end"` // "exhausted" (bt.ErrNoUTXO) | "exhausted-wrapped" (fmt.Errorf("...%w", bt.ErrNoUTXO)) | "error"
+	// RepPrior appends that many further copies of the last prior input (own txid, worth
+	// nothing) to the starting transaction: funding then starts a few inputs below the point
+	// where the input count needs a three-byte prefix, without 250 inputs being drawn and stored
+	RepPrior int `json:"rep_prior,omitempty"`
+}
+
+func expand(c Case) Case {
+	n := len(c.Tx.In)
+	if c.RepPrior <= 0 || c.RepPrior > 1000 || n == 0 {
+		return c
+	}
+	c.Tx.In = append([]ref.In{}, c.Tx.In...)
+	for j := 0; j < c.RepPrior; j++ {
+		in := c.Tx.In[n-1]
+		in.TxID = append(pbt.Hex{}, in.TxID...)
+		if len(in.TxID) == 32 {
+			in.TxID[0], in.TxID[1] = byte(j), byte(j>>8)^0x5a
+		}
+		in.PrevSats = 0
+		c.Tx.In = append(c.Tx.In, in)
+	}
+	c.RepPrior = 0
+	return c
 }
 
 var errSupplier = errors.New("harness: supplier failure")
@@ -77,7 +100,7 @@ type modelResult struct {
 	final    ref.Tx     // meaningful when class == resOK
 	class    string
 	alts     []string // other acceptable classes (error precedence is not part of the property)
-	handed   int    // number of batches handed out
+	handed   int      // number of batches handed out
 }
 
 // runModel is the independent model of the loop.
@@ -167,6 +190,7 @@ func classOf(err error) string {
 }
 
 func check(ctx *pbt.Ctx, c Case) error {
+	c = expand(c)
 	// ---- domain ------------------------------------------------------------------
 	for _, u := range []ref.FeeUnit{c.Quote.Std, c.Quote.Data} {
 		if u.Bytes < 1 || u.Sat < 0 || u.Sat > 1000000 || u.Bytes > 1000000 {
@@ -251,7 +275,10 @@ func check(ctx *pbt.Ctx, c Case) error {
 	// ---- labels --------------------------------------------------------------------
 	ctx.Label("result=" + want.class)
 	ctx.Labelf("calls=%d", min(len(want.deficits), 6))
-	ctx.Labelf("prior-inputs=%d", len(c.Tx.In))
+	ctx.Labelf("prior-inputs=%d", min(len(c.Tx.In), 5))
+	if len(c.Tx.In) < 253 && want.class == resOK && len(want.final.In) >= 253 {
+		ctx.Label("input-count-crosses-253-while-funding")
+	}
 	emptyBatch := false
 	for i := 0; i < want.handed; i++ {
 		if len(c.Batches[i]) == 0 {
@@ -430,6 +457,13 @@ func genCase(t *rapid.T) Case {
 	if ref.Ambiguous(c.Tx) {
 		c.Tx.LockTime = 0
 	}
+	rep := 0
+	if nprior > 0 && rapid.IntRange(0, 19).Draw(t, "many_prior") == 0 {
+		rep = rapid.IntRange(246, 253).Draw(t, "prior_total") - nprior
+	}
+	c.RepPrior = rep
+	stored := c.Tx.In
+	c = expand(c) // the aims below are computed for the transaction as it will be
 	// value of the prior inputs relative to what is needed right now
 	if nprior > 0 {
 		d0, _, _ := deficitOf(c.Tx, c.Quote) // all prior inputs worth 0
@@ -517,6 +551,10 @@ func genCase(t *rapid.T) Case {
 		c.Batches = append(c.Batches, batch)
 	}
 	c.End = rapid.SampledFrom([]string{"exhausted", "error", "exhausted-wrapped"}).Draw(t, "end")
+	for i := range stored { // keep the short form; values were assigned on the expanded copy
+		stored[i].PrevSats = c.Tx.In[i].PrevSats
+	}
+	c.Tx.In, c.RepPrior = stored, rep
 	return c
 }
 
